@@ -21,7 +21,12 @@ static Plan gen_c09(uint64_t seed, const std::string &tier) {
     s.format = "%{tid} %{tid_kernel} T%{snoopy_threads}T %{filename} %{cmdline} " + std::string(r.chance(1, 2) ? "%{login} " : "") + last;
     static const char *outs[] = {"file:/log/c09.log", "file:/log/c09-%{tid_kernel}.log", "devlog", "socket:/run/snoopy-0.sock", "stderr", "stdout", "devtty", "devnull"};
     s.has_output = true; s.output = outs[r.below(8)];
-    if (r.chance(1, 3)) { s.has_chain = true; s.chain = "exclude_uid:" + std::to_string(w.uid + 1) + ";exclude_spawns_of:nosuch"; }
+    switch (r.below(4)) {
+    case 0: s.has_chain = true; s.chain = "exclude_uid:" + std::to_string(w.uid + 1) + ";exclude_spawns_of:nosuch"; break;
+    // a chain whose LAST element drops: every call of every thread must stay silent, whatever the other threads do to the walk over the chain
+    case 1: s.has_chain = true; s.chain = "exclude_uid:" + std::to_string(w.uid + 1) + ";exclude_spawns_of:nosuch;only_uid:" + std::to_string(w.uid + 1); break;
+    default: break;
+    }
     p.ops.push_back(op_setconfig(s.render(r, true)));
     Op b; b.op = "Batch";
     bool stress = tier == "thorough" && r.chance(1, 50);
